@@ -524,12 +524,12 @@ def run(ctx):
                 break
     # ---- on-disk comparisons of files with the same size and the same modification time (as after a checkout or an
     # archive extraction) that differ in one digit / one letter of a column name: the comparison is of contents
-    for it in range(8 if ctx.quick else 80):
+    for it in range(15 if ctx.quick else 100):
         n = rng.randint(2, 5)
         ref = pd.DataFrame({'key': list(range(10, 10 + n)), 'val': [rng.randint(100, 999) for _ in range(n)],
                             'txt': ['t%d' % rng.randint(10, 99) for _ in range(n)]})
         act = ref.copy()
-        kind = rng.choice(['digit', 'name', 'text', 'same', 'na-spelling'])
+        kind = ['digit', 'na-spelling', 'name', 'text', 'na-spelling', 'same'][it % 6]
         row = rng.randrange(n)
         if kind == 'na-spelling':
             # a cell holding an ordinary string that some readers take for a missing value (country code NA, the word
